@@ -38,7 +38,7 @@ ReplyOk(op, st) ==
     [] op.kind = "getset" -> op.res = ShowSt(st)
     [] op.kind = "del" -> op.res = "int" /\ op.resn = (IF st.nil THEN 0 ELSE 1)
     [] op.kind = "incr" -> IF st.nil \/ st.isnum THEN op.res = "int" /\ op.resn = (IF st.nil THEN 0 ELSE st.n) + op.argn
-                           ELSE SubSeq(op.res, 1, 5) = "error"
+                           ELSE op.err
     [] OTHER -> FALSE
 
 RECURSIVE Search(_, _, _)
